@@ -8,6 +8,7 @@ import (
 	"io"
 	"os"
 	"path/filepath"
+	"sort"
 	"strings"
 	"sync"
 	"time"
@@ -99,54 +100,9 @@ func runSecrets(c []string) string {
 	var docs [][]byte
 	switch c[1] {
 	case "sync":
-		hdr := fmt.Sprintf("+FULLRESYNC 8f3ac0ffee 1000\r\n$%d\r\n", len(img))
-		total := len(hdr) + len(img) + len(cmds)
-		half := len(hdr) + len(img) + len(cmds)/2
-		srv := &fakesrc.Server{Start: 1000, Rdb: img, Cmds: cmds,
-			Conns: []fakesrc.Script{
-				{Hdr: []byte(hdr), Acts: []string{fmt.Sprintf("S%d", half), "M", "W1300", "D"}},
-				{Hdr: []byte("+CONTINUE\r\n"), Acts: []string{fmt.Sprintf("S%d", 11+total-half), "W1500"}},
-			}}
-		addr, err := srv.Listen()
-		if err != nil {
-			return "err=listen"
-		}
-		defer srv.Close()
-		node := &slot.SyncNode{Id: 0, Source: addr, SourcePassword: srcpw, Target: []string{tgt.Addr()}, TargetPassword: tgtpw,
-			SlotLeftBoundary: -1, SlotRightBoundary: -1}
-		ds := dbSync.NewDbSyncer(node, 9320, semaphore.NewWeighted(1))
-		go ds.Sync()
-		select {
-		case <-srv.Done:
-		case <-time.After(20 * time.Second):
-		}
-		time.Sleep(1500 * time.Millisecond)
-		j, _ := json.Marshal(ds.GetExtraInfo())
-		docs = append(docs, j, []byte(fmt.Sprintf("%v", ds.GetExtraInfo())))
-		// the checkpoint the target holds at the end (C08: exact stream positions)
-		tgt.Lock()
-		var ck []string
-		for n, db := range tgt.DBs {
-			for k, v := range db {
-				if strings.HasPrefix(k, "redis-shake-checkpoint") {
-					for _, kv := range v.H {
-						ck = append(ck, fmt.Sprintf("%d/%s=%s", n, hx(kv.K), hx(kv.V)))
-					}
-				}
-			}
-		}
-		nkeys := 0
-		for _, db := range tgt.DBs {
-			nkeys += len(db)
-		}
-		tgt.Unlock()
-		nauth := 0
-		for _, e := range srv.Events() {
-			if e.Kind == "auth" {
-				nauth++
-			}
-		}
-		extra = fmt.Sprintf(" keys=%d srcauth=%d ckpt=%s", nkeys, nauth, strings.Join(ck, ","))
+		var d [][]byte
+		extra, d = e2eSync(srcpw, tgtpw, img, cmds, tgt)
+		docs = append(docs, d...)
 	case "cluster":
 		// cluster source whose shard has no reachable master: the start path re-discovers the topology,
 		// gives up after the retry budget and aborts - whatever it prints on the way is in the side file
@@ -220,4 +176,69 @@ func runSecrets(c []string) string {
 		lk = strings.Join(leaks, ",")
 	}
 	return fmt.Sprintf("loglines=%d logbytes=%d tgtauth=%d leaks=%s%s", bytes.Count(logged, []byte("\n")), len(logged), tgtauth, lk, extra)
+}
+
+// e2eSync runs the real start path (NewDbSyncer + Sync) against a scripted source that sends
+// the RDB, half of the command stream, drops the connection, and serves the rest after the
+// re-established PSYNC; returns the target's final key count, AUTHs seen by the source and
+// the checkpoint fields the target holds.
+func e2eSync(srcpw, tgtpw string, img, cmds []byte, tgt *fakeredis.Server) (string, [][]byte) {
+		hdr := fmt.Sprintf("+FULLRESYNC 8f3ac0ffee 1000\r\n$%d\r\n", len(img))
+		total := len(hdr) + len(img) + len(cmds)
+		half := len(hdr) + len(img) + len(cmds)/2
+		srv := &fakesrc.Server{Start: 1000, Rdb: img, Cmds: cmds,
+			Conns: []fakesrc.Script{
+				{Hdr: []byte(hdr), Acts: []string{fmt.Sprintf("S%d", half), "M", "W1300", "D"}},
+				{Hdr: []byte("+CONTINUE\r\n"), Acts: []string{fmt.Sprintf("S%d", 11+total-half), "W1500"}},
+			}}
+		addr, err := srv.Listen()
+		if err != nil {
+			return "err=listen", nil
+		}
+		defer srv.Close()
+		node := &slot.SyncNode{Id: 0, Source: addr, SourcePassword: srcpw, Target: []string{tgt.Addr()}, TargetPassword: tgtpw,
+			SlotLeftBoundary: -1, SlotRightBoundary: -1}
+		ds := dbSync.NewDbSyncer(node, 9320, semaphore.NewWeighted(1))
+		go ds.Sync()
+		select {
+		case <-srv.Done:
+		case <-time.After(20 * time.Second):
+		}
+		time.Sleep(1500 * time.Millisecond)
+		j, _ := json.Marshal(ds.GetExtraInfo())
+		docs := [][]byte{j, []byte(fmt.Sprintf("%v", ds.GetExtraInfo()))}
+		// the checkpoint the target holds at the end (C08: exact stream positions)
+		tgt.Lock()
+		var ck []string
+		for n, db := range tgt.DBs {
+			for k, v := range db {
+				if strings.HasPrefix(k, "redis-shake-checkpoint") {
+					for _, kv := range v.H {
+						ck = append(ck, fmt.Sprintf("%d/%s=%s", n, hx(kv.K), hx(kv.V)))
+					}
+				}
+			}
+		}
+		nkeys := 0
+		var tk []string
+		for n, db := range tgt.DBs {
+			nkeys += len(db)
+			for k := range db {
+				tk = append(tk, fmt.Sprintf("%d/%s", n, hx([]byte(k))))
+			}
+		}
+		sort.Strings(tk)
+		tgt.Unlock()
+		nauth := 0
+		var ps []string
+		for _, e := range srv.Events() {
+			if e.Kind == "auth" {
+				nauth++
+			}
+			if e.Kind == "psync" {
+				ps = append(ps, fmt.Sprintf("%s:%d", hx([]byte(e.Runid)), e.Val))
+			}
+		}
+		sort.Strings(ck)
+		return fmt.Sprintf(" keys=%d srcauth=%d psyncs=%s tkeys=%s ckpt=%s", nkeys, nauth, strings.Join(ps, ","), strings.Join(tk, ","), strings.Join(ck, ",")), docs
 }
